@@ -303,7 +303,7 @@ def reify_stages(inv, refute, tier="quick"):
 def c04(tier, seed):
     return reify_stages(["OkIsValid"], [("PtrDefaultSkipsRange", ["OkIsValid"]), ("UncheckedCarriedOver", ["OkIsValid"])], tier) + [
         MC("Gen_Validators", dict(Groups="={}"), invariants=["OkIsValid", "BreakFails"], label="MC_Validators/table"),
-        GEN("Gen_Validators", {}, "validators", label="Gen_Validators/kinds-x-tags-x-defaults-x-settings", min_cases=12000),
+        GEN("Gen_Validators", {}, "validators", label="Gen_Validators/kinds-x-tags-x-defaults-x-settings", min_cases=13000),
         # the validated field reached through every kind of wrapper (pointers to pointers, interface{}-held values, elements of
         # slices / arrays / maps in all these forms), pre-filled, with the configuration mentioning nothing or only a part
         MC("Gen_Reach", dict(Groups="={}"), invariants=["NoInvalidAccepted", "DefaultsKept"], label="MC_Reach/reachable-defaults"),
